@@ -115,6 +115,7 @@ def main():
         # the real pipeline runs goimports, which drops unused imports; here: keep the qualifiers the text mentions
         used_imps = [(k, v) for k, v in sorted(data["imports"].items()) if re.search(r"\b%s\." % re.escape(k), text)]
         return "import (\n" + "".join('\t%s "%s"\n' % kv for kv in used_imps) + ")\n"
+    shutil.copy(os.path.join(HERE, "shared_bounded_test.go.txt"), os.path.join(out, "zz_shared_bounded_test.go"))
     open(os.path.join(out, "shared.go"), "w").write("package tier2\n\n" + imports_for(data["shared"]) + "\n" + data["shared"])
     tpls = parse_templates(a.contracts or os.path.join(a.repo, "verif_contracts.go"))
     contract_lines = ["//go:build verif", "", "package tier2", ""]
